@@ -112,6 +112,28 @@ type GlobalConst struct {
 	Line  int
 }
 
+// EmitOnSuccess: "emitonsuccess FUNC VAR": in FUNC no assignment to the
+// (captured or local) variable VAR lies on a path that can still reach a
+// `return false`: what FUNC itself emits into VAR is emitted only once
+// success is certain.
+type EmitOnSuccess struct {
+	Props []string
+	Func  string
+	Var   string
+	File  string
+	Line  int
+}
+
+// ConstFormat: "constformat PKG": every call of a printf-like function in the
+// repository package PKG (path suffix) passes a constant format string, or
+// the enclosing function's own format parameter (a wrapper).
+type ConstFormat struct {
+	Props []string
+	Pkg   string
+	File  string
+	Line  int
+}
+
 type MapRangeRule struct {
 	Props  []string
 	Func   string // function key
@@ -128,6 +150,8 @@ type Contracts struct {
 	MapRanges []*MapRangeRule
 	Onlys  []*OnlyRule
 	GlobalConsts []*GlobalConst
+	EmitOnSuccess []*EmitOnSuccess
+	ConstFormats []*ConstFormat
 	Funcs  map[string]*FuncContract // key: pkgpath + "::" + relname, or absolute name for externals
 	Ghosts map[string]*GhostVar
 	Specs  map[string]*SpecFunc
@@ -138,7 +162,7 @@ type Contracts struct {
 }
 
 var clauseRe = regexp.MustCompile(`^(requires|hypothesis|ensures|xensures|invariant|decreases|assert|assume|modifies|trusted|freshresult|pure|inline|noinline|nullable|maypanic|nopanic|let|set|init|specialize|assign)\b(\[[A-Za-z0-9, ]*\])?\s*(.*)$`)
-var topRe = regexp.MustCompile(`^(func|ghost|spec|axiom|lemma|iface|only|maprange|globalconst)\b(\[[A-Za-z0-9, ]*\])?\s*(.*)$`)
+var topRe = regexp.MustCompile(`^(func|ghost|spec|axiom|lemma|iface|only|maprange|globalconst|emitonsuccess|constformat)\b(\[[A-Za-z0-9, ]*\])?\s*(.*)$`)
 
 func parseProps(s string) []string {
 	s = strings.Trim(s, "[]")
@@ -321,6 +345,19 @@ func (cs *Contracts) parseFile(fname, pkg, prefix string) {
 					r.Allowed = append(r.Allowed, a)
 				}
 				cs.Onlys = append(cs.Onlys, r)
+			case "constformat":
+				cs.ConstFormats = append(cs.ConstFormats, &ConstFormat{Props: props, Pkg: pkg, File: fname, Line: l.line})
+			case "emitonsuccess":
+				f := strings.Fields(rest)
+				if len(f) != 2 {
+					cs.errf(fname, l.line, "emitonsuccess needs FUNC VAR")
+					continue
+				}
+				fn := f[0]
+				if pkg != "" && !strings.Contains(fn, "::") {
+					fn = pkg + "::" + fn
+				}
+				cs.EmitOnSuccess = append(cs.EmitOnSuccess, &EmitOnSuccess{Props: props, Func: fn, Var: f[1], File: fname, Line: l.line})
 			case "globalconst":
 				// globalconst NAME FUNC "literal": the package variable NAME is assigned
 				// exactly once, in the package initializer, the value FUNC("literal")
